@@ -21,8 +21,29 @@ def run_batches(scenarios, exes, workdir, batch=40, module="CatTrace", keep=Fals
 
     def work(j):
         write_scenarios(j["scn"], j["chunk"])
-        del j["chunk"]
+        chunk = j["chunk"]
         j["rc"], j["stderr"] = run_harness(exes[j["k"]], j["scn"], j["trace"])
+        rc, part = j["rc"], 0
+        while rc != 0:
+            # the harness died (sanitizer report, signal): the Crash record ends that scenario; run the remaining ones separately
+            last = None
+            with open(j["trace"]) as f:
+                for line in f:
+                    if line.startswith('{"e":"cfg"'):
+                        last = int(line.split('"sid":')[1].split(",")[0])
+            ids = [s.sid for s in chunk]
+            if last is None or last not in ids or ids.index(last) + 1 >= len(chunk):
+                break
+            chunk = chunk[ids.index(last) + 1:]
+            part += 1
+            scn2, tr2 = j["scn"] + ".p%d" % part, j["trace"] + ".p%d" % part
+            write_scenarios(scn2, chunk)
+            rc, err = run_harness(exes[j["k"]], scn2, tr2)
+            with open(j["trace"], "a") as out, open(tr2) as src:
+                shutil.copyfileobj(src, out)
+            os.unlink(tr2)
+            os.unlink(scn2)
+        del j["chunk"]
         j["result"] = validate_trace(j["trace"], module, timeout=tlc_timeout) if validate else None
         if not keep:
             try:
